@@ -10,7 +10,7 @@ Z64 = b'\0' * 8
 
 # ---------------------------------------------------------------- generator
 def _gen_case(rng, flavor=None, size=None):
-    flavor = flavor or rng.choice(['fs', 'fs', 'wrap'])
+    flavor = flavor or rng.choice(['fs', 'fs', 'fs', 'wrap', 'wrap', 'wrapfs'])
     size = size or rng.choice([6, 10, 16, 24])
     ops = []
     slots = ['a', 'b', 'c']
@@ -36,7 +36,7 @@ def _gen_case(rng, flavor=None, size=None):
                     body.append(['plain', 'p%d' % rng.randrange(2), rng.randrange(5)])
                 elif q < 0.88:
                     body.append([rng.choice(['unlink', 'unlink', 'relink']), s])
-                elif flavor == 'fs' and ntx > 0 and q < 0.97:
+                elif flavor != 'wrap' and ntx > 0 and q < 0.97:
                     body = [['undo', rng.randrange(1, 4)]]
                     if rng.random() < 0.4:
                         # multi-undo: further, older transactions undone in the same transaction
@@ -77,9 +77,9 @@ def _gen_case(rng, flavor=None, size=None):
                 committed |= {b[1] for b in body if b[0] == 'blob'}
                 ntx += 1
         elif r < 0.9 and ntx > 0:
-            if flavor == 'fs' and rng.random() < 0.25:
+            if flavor != 'wrap' and rng.random() < 0.25:
                 ops.append(['reopen'])
-            if flavor == 'fs' and rng.random() < 0.3:
+            if flavor != 'wrap' and rng.random() < 0.3:
                 ops.append(['failpack', rng.choice([0, 1, 1])])      # abandoned pack (disk full), then …
             ops.append(['pack', rng.randrange(0, 6), rng.choice([0, 1, 1])])
         else:
@@ -205,7 +205,20 @@ def run_case(case, root, ck=None):
                     if k not in files:
                         if after == 'pack':
                             dup = flavor == 'fs' and k in dupkeys
-                            if dup:
+                            unloadable = False
+                            if flavor == 'wrapfs':
+                                # _packUndoing keeps a file iff loadSerial(oid, tid) succeeds.  A record that the base
+                                # pack kept ONLY as the target of a back pointer from after the pack time is listed by
+                                # the iterator but cannot be loaded any more (no prev chain leads to it): its file goes
+                                try:
+                                    S.loadSerial(p64(k[0]), p64(k[1]))
+                                except Exception:
+                                    unloadable = True
+                            if unloadable:
+                                cnt('wrapfs:pack-removed-file-of-unloadable-back-pointer-target')
+                                del L.files[k]
+                                L.gone.add(k)
+                            elif dup:
                                 # the transaction holds a superseded duplicate record of this revision (multi-undo):
                                 # fspack's is_dup test misses duplicates kept through a back pointer from after
                                 # the pack time (corpus/C13/repro_pack_duplicate_undo_record.py)
@@ -214,6 +227,7 @@ def run_case(case, root, ck=None):
                                 nomodel[0] = True
                             else:
                                 bad('C13:nonundo-pack-removes-kept-blob' if flavor == 'wrap' else
+                                    'C13:pack-removes-kept-blob:undo-capable-base' if flavor == 'wrapfs' else
                                     'C13:pack-removes-kept-blob',
                                     'pack removed the blob file of revision %r whose record is kept' % (k,))
                             if flavor == 'wrap' or dup:
@@ -230,6 +244,11 @@ def run_case(case, root, ck=None):
                     if k in L.files:
                         continue
                     if txn is not None and k[1] == tid_now:
+                        continue
+                    if flavor == 'wrapfs' and k in {(o, t) for o, t, kd in env.records() if kd == 'none'}:
+                        # by design of the legacy wrapper: undoing a creation keeps a copy of the blob under the
+                        # undo tid "in case a user wishes to undo this undo" (the record is an un-creation)
+                        cnt('wrapfs:uncreation-keeps-copy')
                         continue
                     if env.intruder_aborted:
                         bad('C13:abort-before-vote-leaves-blob', 'blob file %r of a transaction that began while another '
@@ -428,18 +447,21 @@ def run_case(case, root, ck=None):
                               'revisions' % (n, others[0]))
                       check('other-storage')
                   elif kind == 'reopen':
-                      if txn is not None or flavor != 'fs':
+                      if txn is not None or flavor == 'wrap':
                           continue
                       env.reopen()
                       S = env.storage
                       check('reopen')
                   elif kind == 'failpack':
-                      if txn is not None or not L.txns or flavor != 'fs':
+                      if txn is not None or not L.txns or flavor == 'wrap':
                           continue
                       tt = TimeStamp(p64(L.txns[-1][0])).timeTime() + 0.5
                       env.fail_next_pack()
                       try:
-                          S.pack(tt, referencesf, gc=bool(op[1]))
+                          if flavor == 'fs':
+                              S.pack(tt, referencesf, gc=bool(op[1]))
+                          else:
+                              S.pack(tt, referencesf)
                           cnt('failpack:nothing-to-pack')
                       except OSError:
                           cnt('failpack:abandoned')
@@ -514,6 +536,9 @@ def run_case(case, root, ck=None):
             env.close()
     if nomodel[0]:
         # the model keeps one record per oid and transaction: it does not follow this history
+        return dict(lines=[], real=[], problems=problems, nontrivial=nontrivial, stats=stats, tie=env.tie_breaks)
+    if flavor == 'wrapfs':
+        # oracle only: the wrapper's own undo (BlobStorage.undo) and _packUndoing are not driven through the model
         return dict(lines=[], real=[], problems=problems, nontrivial=nontrivial, stats=stats, tie=env.tie_breaks)
     return dict(lines=['reset ' + flavor] + env.lines + extra[0], real=['ok'] + env.real + extra[1],
                 problems=problems, tie=env.tie_breaks,
